@@ -90,9 +90,19 @@ func (c *consentCtx) isConsentValue(v ssa.Value, depth int) bool {
 				if u, ok := b.X.(*ssa.UnOp); ok && u.Op == token.MUL {
 					if _, f, _, isf := FieldRef(u.X); isf && (f == "SendToReplicas" || f == "toReplicas") {
 						hasAnswer := false
-						for _, e2 := range x.Edges {
+						for k2, e2 := range x.Edges {
 							if c2, isc := Strip(e2).(*ssa.Call); isc && c.isConsentCall(c2) {
 								hasAnswer = true
+							}
+							// or the accumulator is cleared where a predicate answered false
+							// (`if !pred(cmd) { ok = false; break }`)
+							if k, isk := Strip(e2).(*ssa.Const); isk && k.Value != nil && k.Value.Kind() == constant.Bool && !constant.BoolVal(k.Value) {
+								pr := x.Block().Preds[k2]
+								for _, g := range append(DomGuards(pr), edgeGuards(pr, x.Block())...) {
+									if gc, isc := g.Cond.(*ssa.Call); isc && !g.Pol && c.isConsentCall(gc) {
+										hasAnswer = true
+									}
+								}
 							}
 						}
 						if hasAnswer {
